@@ -232,6 +232,32 @@ def decision_table(chk, tmp):
                 os.remove(path)
             out.append(res)
             chk.case({"kind": "remove-table", "mode": mode, "filename_given": given}, ("rm", mode, given))
+            # the same entitlement after the object has been closed (close(); remove()): still refused / still granted
+            fn2 = os.path.join(tmp, f"rmc_{mode}_{given}.hdf5")
+            try:
+                if mode == "read":
+                    seed = ptm.FileProcessTensor("write", fn2, 2)
+                    seed.close()
+                    obj = ptm.FileProcessTensor("read", fn2)
+                else:
+                    obj = ptm.FileProcessTensor(mode, fn2 if given else None, 2)
+                path = obj.filename
+                obj.close()
+                chk.search_cases += 1
+                try:
+                    obj.remove()
+                    res2 = 1
+                except FileExistsError:
+                    res2 = 0
+                gone = not os.path.exists(path)
+                if res2 != res or gone != (res == 1):
+                    chk.fail("remove-after-close", f"close(); remove() on a mode '{mode}' object ({'named' if given else 'temporary'} file): "
+                             f"{'granted' if res2 else 'refused'}, file {'deleted' if gone else 'kept'}; on the open object remove() is {'granted' if res else 'refused'}",
+                             {"mode": mode, "given": given})
+                if os.path.exists(path) and not path.startswith(tmp):
+                    os.remove(path)
+            except Exception as ex:
+                chk.fail("remove-crashes", f"close(); remove() raised {ex!r}", {"mode": mode, "given": given})
     return out
 
 
